@@ -151,7 +151,7 @@ class Engine:
         if a is None:
             a = self.base_arrays.get(key)
             if a is None:
-                a = z3.Array(key + "@0", dom, rng)
+                a = z3.Array(key.replace("|", "/") + "@0", dom, rng)  # no '|' in SMT-LIB symbols (cvc5)
                 self.base_arrays[key] = a
         return a
 
@@ -1903,8 +1903,19 @@ class Engine:
     # loops -----------------------------------------------------------------
     def _loop_spec(self, node):
         fr = self.frame
-        ordinal = fr.loop_ordinal
-        fr.loop_ordinal += 1
+        # loops are numbered in source order within their function
+        num = getattr(fr, "loop_numbers", None)
+        if num is None:
+            num = {}
+            if fr.node is not None:
+                loops = [n for n in ast.walk(fr.node) if isinstance(n, (ast.While, ast.For))]
+                loops.sort(key=lambda n: (n.lineno, n.col_offset))
+                for i, n in enumerate(loops):
+                    num[id(n)] = i
+            fr.loop_numbers = num
+        ordinal = num.get(id(node), 10_000)
+        if fr.loop_ordinal >= 10_000:
+            ordinal = 10_000  # loops inside closures have no sidecar
         ls = self.R.loops.get((fr.qual, ordinal))
         if ls is not None and ls.fingerprint:
             hdr = ast.unparse(node.test) if isinstance(node, ast.While) else ast.unparse(node.target) + " in " + ast.unparse(node.iter)
